@@ -54,7 +54,7 @@ def differs(prog, got, want):
     return L.same_value(got, want, tolerance(prog))
 
 
-def run_case(prog, style: str, rseed: int, bindings, specs=None, use_reference=False):
+def run_case(prog, style: str, rseed: int, bindings, specs=None, use_reference=False, dims: str = "concrete"):
     """Write `prog` in Python (`style`, `rseed`), build it, and judge the result with the model-free
     oracle.  Returns a dict: fail = (key, what) | None; model, emission, problems, realised, stats."""
     out = {"fail": None, "model": None, "emission": None, "problems": [], "realised": None,
@@ -65,7 +65,7 @@ def run_case(prog, style: str, rseed: int, bindings, specs=None, use_reference=F
     try:
         with warnings.catch_warnings():
             warnings.simplefilter("ignore")
-            R = L.realise(prog, rng, style, twins=bool(prog.get("special")))
+            R = L.realise(prog, rng, style, twins=bool(prog.get("special")), dims=dims)
     except L.HarnessError as e:
         out["problems"] = [f"harness: {e}"]
         return out
@@ -73,6 +73,15 @@ def run_case(prog, style: str, rseed: int, bindings, specs=None, use_reference=F
         out["fail"] = (classify_raise(prog, "construct", e), f"constructor raised {type(e).__name__}: {str(e)[:200]}")
         return out
     out["realised"] = R
+    if dims != "concrete":
+        # premise "requested outputs have a known rank": with inputs declared by name / None, ONNX inference may
+        # lose an output's rank altogether (Loop state whose body result has another declared size)
+        try:
+            if any(v.unwrap_tensor().shape is None for v in R.outputs.values()):
+                out["notes"].append("outside-premise: a requested output has no known rank")
+                return out
+        except Exception:  # noqa: BLE001 - cannot tell: judge the case with concrete declarations instead
+            return run_case(prog, style, rseed, bindings, specs, use_reference, "concrete")
     try:
         model, log = L.build_model(R)
     except Exception as e:  # noqa: BLE001
@@ -130,6 +139,12 @@ def run_case(prog, style: str, rseed: int, bindings, specs=None, use_reference=F
             s3, got2 = L.run_reference(model, feeds)
             if s3 == "ok" and not any(differs(prog, g, want[oi]) for g, oi in zip(got2, pos)):
                 out["notes"].append("runtime-unsupported: " + got[:100])
+                continue
+            if dims != "concrete" and "Subgraph must have the shape set for all outputs" in got:
+                # onnxruntime's Scan wants a rank for every body output; with inputs declared by name / None ONNX
+                # inference legitimately loses the rank of an inner Loop's outputs (never with concrete declarations,
+                # where this message stays a failure)
+                out["notes"].append("runtime-unsupported: Scan body output without a rank (non-concrete declarations)")
                 continue
             out["fail"] = ("runtime-fails", f"onnxruntime run: {got[:200]}")
             return out
@@ -244,16 +259,254 @@ def run_history(prog, style: str, rseed: int, bindings, n_builds: int = 3):
     return None
 
 
-def case_doc(prog, style, rseed, bindings):
-    return {"prog": prog, "style": style, "rseed": rseed, "bindings": [L.binding_to_json(b) for b in bindings]}
+# ------------------------------------------------ round 6: the other routes / options of a build
+def judge_model(prog, model, out_names, name_of, expected_inputs, check_order, bindings, specs, tag, extra_feeds=None,
+                concrete_dims=True):
+    """Model-free verdict on ONE returned model: requested outputs there, exactly the expected inputs
+    (optionally in caller order), accepted by onnx.checker, loads and runs under onnxruntime on feeds
+    for exactly the inputs it lists, every requested output = dataflow value.  `out_names[j]` names
+    requested output j of `prog`; `name_of[a]` is the model-input name of main argument a.
+    Returns (key, what) | None."""
+    import onnx
+
+    names = [o.name for o in model.graph.output]
+    if sorted(names) != sorted(out_names):
+        return ("wrong-outputs", f"{tag}: model outputs {names}, requested {list(out_names)}")
+    in_names = [i.name for i in model.graph.input]
+    if sorted(in_names) != sorted(expected_inputs):
+        missing = [nm for nm in expected_inputs if nm not in in_names]
+        surplus = [nm for nm in in_names if nm not in expected_inputs]
+        return ("wrong-inputs", f"{tag}: model inputs {in_names}; missing {missing}, not expected {surplus}")
+    if check_order and in_names != list(expected_inputs):
+        return ("wrong-inputs", f"{tag}: model inputs {in_names} are not in the caller's order {list(expected_inputs)}")
+    try:
+        onnx.checker.check_model(model)
+    except Exception as e:  # noqa: BLE001
+        return ("checker-rejects-model", f"{tag}: onnx.checker: {str(e)[:200]}")
+    st, sess = L.ort_session(model)
+    for bi, (b, sp) in enumerate(zip(bindings, specs)):
+        if sp is None:
+            continue
+        want, ws = sp
+        if ws["wild"]:
+            continue
+        feeds = {name_of[a]: v for a, v in b.items() if name_of.get(a) in in_names}
+        for nm, v in (extra_feeds or {}).items():
+            if nm in in_names:
+                feeds[nm] = v
+        if st == "ok":
+            s2, got = L.ort_run(sess, feeds)
+        else:
+            s2, got = "load-err", sess
+        if s2 != "ok":
+            s3, got2 = L.run_reference(model, feeds)
+            if s3 == "ok" and not any(differs(prog, g, want[out_names.index(nm)]) for g, nm in zip(got2, names)):
+                continue
+            if not concrete_dims and "Subgraph must have the shape set for all outputs" in str(got):
+                continue  # (see run_case: onnxruntime's Scan and ranks lost under non-concrete declarations)
+            return ("runtime-rejects-model" if st != "ok" else "runtime-fails", f"{tag}: onnxruntime: {str(got)[:200]}")
+        for g, nm in zip(got, names):
+            d = differs(prog, g, want[out_names.index(nm)])
+            if d:
+                return ("wrong-value", f"{tag}: output {nm} on binding {bi}: onnxruntime vs dataflow: {d[:160]}")
+    return None
 
 
-def shrink_failure(prog, style, rseed, bindings, key, budget):
+TO_MODEL_KW = [
+    {}, {"infer_shapes": True}, {"check_model": 0}, {"check_model": 2}, {"ir_version": 9}, {"concrete": False},
+    {"producer_name": "somebody", "model_doc_string": "a doc string"}, {"infer_shapes": True, "check_model": 2},
+]
+
+
+def make_variants(prog, rng, full: bool) -> list[dict]:
+    """Descriptors of the non-default builds tried on one realisation (replayable: only seeds inside)."""
+    def v(route, **kw):
+        d = {"route": route, "drop": False, "extra": 0, "order": "caller", "seed": rng.getrandbits(30)}
+        d.update(kw)
+        return d
+
+    orders = ["caller", "reversed", "shuffled"]
+    pool = [
+        v("build", drop=True, order=rng.choice(orders)),
+        v("build", drop=True, extra=rng.randint(1, 3), order=rng.choice(orders)),
+        v("build", drop=False, extra=rng.randint(1, 3), order=rng.choice(orders)),
+        v("graph", with_arguments=True, extra=rng.choice([0, 0, 2]), order=rng.choice(orders), kw=rng.choice(TO_MODEL_KW),
+          name=rng.random() < 0.5, doc=rng.random() < 0.5, opset=rng.random() < 0.5),
+        v("graph", with_arguments=False, kw=rng.choice(TO_MODEL_KW), name=rng.random() < 0.5, doc=rng.random() < 0.5,
+          opset=rng.random() < 0.5),
+    ]
+    if full:
+        return pool
+    return [pool[0], rng.choice(pool[1:])]
+
+
+def run_variant(prog, R, variant, bindings, specs):
+    """One further build over the SAME Python objects `R` by another route / with other options.
+    Returns {"fail": (key, what) | None, "model", "args": main-argument ids of model.graph.input}."""
+    import warnings
+
+    import spox
+    from spox import Tensor, argument
+
+    out = {"fail": None, "model": None, "args": None, "caller_args": None, "skipped": None}
+    vr = random.Random(variant["seed"])
+    margs = L.main_args(prog)
+    used = L.used_args(prog)
+    order = list(R.inputs)  # the caller's dict order of the default build: in<id>
+    ids = [int(nm[2:]) for nm in order]
+    if variant["order"] == "reversed":
+        ids.reverse()
+    elif variant["order"] == "shuffled":
+        vr.shuffle(ids)
+    # arguments that belong to no requested computation: fresh, partly read by unrequested operators
+    entries: list[tuple] = [("in%d" % a, R.vars[(a, 0)], a) for a in ids]
+    extra_feeds = {}
+    import importlib
+    opmod = importlib.import_module(f"spox.opset.ai.onnx.v{prog.get('opset', 17)}")
+    for j in range(variant.get("extra", 0)):
+        kind = vr.choice([("i64", np.int64), ("f32", np.float32), ("bool", np.bool_)])
+        shape = vr.choice([(), (N_,), (2, N_)])
+        ev = argument(Tensor(kind[1], shape))
+        if vr.random() < 0.5 and kind[0] != "bool":
+            opmod.add(ev, ev)  # constructed, never requested
+        nm = f"extra{j}"
+        entries.insert(vr.randint(0, len(entries)), (nm, ev, None))
+        extra_feeds[nm] = np.zeros(shape, dtype=kind[1])
+    tag = "variant " + json.dumps({k: variant[k] for k in variant if k != "seed"}, sort_keys=True)
+    out_names = list(R.outputs)
+    # requested output j of prog is named out<j>
+    by_pos = [f"out{j}" for j in range(len(prog["outputs"]))]
+    try:
+        with warnings.catch_warnings():
+            warnings.simplefilter("ignore")
+            if variant["route"] == "build":
+                inputs = {nm: var for nm, var, _ in entries}
+                if variant["drop"]:
+                    try:
+                        import inspect
+
+                        if "drop_unused_inputs" not in inspect.signature(spox.build).parameters:
+                            out["skipped"] = "spox.build has no drop_unused_inputs option"
+                            return out
+                    except (TypeError, ValueError):
+                        pass
+                    model = spox.build(inputs, dict(R.outputs), drop_unused_inputs=True)
+                else:
+                    model = spox.build(inputs, dict(R.outputs))
+                name_of = {a: f"in{a}" for a in margs}
+                if variant["drop"]:
+                    expected = [nm for nm, _, a in entries if a is not None and a in used]
+                else:
+                    expected = [nm for nm, _, _ in entries]
+                check_order = True
+            else:
+                try:
+                    from spox._graph import results
+                except Exception as e:  # noqa: BLE001 - route not available in this tree: nothing to judge
+                    out["skipped"] = f"spox._graph.results: {type(e).__name__}"
+                    return out
+                try:  # the route's own vocabulary (a renamed setter is a refactoring, not a verdict)
+                    g = results(**dict(R.outputs))
+                    if variant.get("with_arguments"):
+                        g = g.with_arguments(*[var for _, var, _ in entries])
+                    if variant.get("name"):
+                        g = g.with_name("my_graph")
+                    if variant.get("doc"):
+                        g = g.with_doc("what the graph does")
+                    if variant.get("opset"):
+                        g = g.with_opset(("ai.onnx", prog.get("opset", 17)))
+                    to_model = g.to_onnx_model
+                    get_arguments = g.get_arguments
+                except (AttributeError, TypeError, ImportError) as e:
+                    out["skipped"] = f"graph route: {type(e).__name__}: {str(e)[:80]}"
+                    return out
+                kw = dict(variant.get("kw", {}))
+                try:  # options this tree does not have are not passed (their absence is not a verdict)
+                    import inspect
+
+                    params = inspect.signature(to_model).parameters
+                    if not any(p_.kind == p_.VAR_KEYWORD for p_ in params.values()):
+                        kw = {k: v_ for k, v_ in kw.items() if k in params}
+                except (TypeError, ValueError):
+                    pass
+                model = to_model(**kw)
+                # input names are generated here: ask the public accessor which argument got which name
+                try:
+                    named = get_arguments()
+                except Exception as e:  # noqa: BLE001
+                    out["skipped"] = f"Graph.get_arguments: {type(e).__name__}: {str(e)[:80]}"
+                    return out
+                name_of, extra_named = {}, {}
+                for nm, var in named.items():
+                    hit = [a for a in margs if R.vars[(a, 0)] is var]
+                    if hit:
+                        name_of[hit[0]] = nm
+                    else:
+                        for enm, evar, a in entries:
+                            if a is None and evar is var:
+                                extra_named[nm] = extra_feeds[enm]
+                extra_feeds = extra_named
+                inv = {id(var): nm for nm, var in named.items()}
+                if variant.get("with_arguments"):
+                    expected = [inv.get(id(var), f"<unnamed {nm}>") for nm, var, _ in entries]
+                    check_order = True
+                else:
+                    expected = [name_of.get(a, f"<unnamed in{a}>") for a in used]
+                    check_order = False
+    except Exception as e:  # noqa: BLE001
+        out["fail"] = (classify_raise(prog, "build", e), f"{tag}: raised {type(e).__name__}: {str(e)[:200]}")
+        return out
+    out["model"] = model
+    rev = {nm: a for a, nm in name_of.items()}
+    out["args"] = [rev.get(i.name) for i in model.graph.input]
+    out["caller_args"] = [a for _, _, a in entries if a is not None]
+    out["fail"] = judge_model(prog, model, by_pos, name_of, expected, check_order, bindings, specs, tag, extra_feeds,
+                              concrete_dims=getattr(R, "dims", "concrete") == "concrete")
+    return out
+
+
+N_ = L.N
+
+
+def run_variant_case(prog, style, rseed, variant, bindings, dims="concrete"):
+    """Fresh realisation, the default build first (as in the run), then the variant build.
+    Returns (key, what) | None."""
+    import warnings
+
+    try:
+        with warnings.catch_warnings():
+            warnings.simplefilter("ignore")
+            R = L.realise(prog, random.Random(rseed), style, twins=bool(prog.get("special")), dims=dims)
+    except L.HarnessError:
+        return None
+    except Exception as e:  # noqa: BLE001
+        return (classify_raise(prog, "construct", e), f"constructor raised {type(e).__name__}: {str(e)[:160]}")
+    try:
+        L.build_model(R)
+    except Exception:  # noqa: BLE001 - the default build is judged by run_case
+        pass
+    specs = []
+    for b in bindings:
+        try:
+            specs.append(L.eval_numpy(prog, b))
+        except L.PartialOp:
+            specs.append(None)
+    return run_variant(prog, R, variant, bindings, specs)["fail"]
+
+
+def case_doc(prog, style, rseed, bindings, dims="concrete"):
+    doc = {"prog": prog, "style": style, "rseed": rseed, "bindings": [L.binding_to_json(b) for b in bindings]}
+    if dims != "concrete":
+        doc["dims"] = dims
+    return doc
+
+
+def shrink_failure(prog, style, rseed, bindings, key, budget, dims="concrete"):
     def still(p, bs):
         try:
             if L.check_wellformed(p) or L.typecheck(p):
                 return False
-            r = run_case(p, style, rseed, bs)
+            r = run_case(p, style, rseed, bs, dims=dims)
         except Exception:  # noqa: BLE001
             return False
         return r["fail"] is not None and r["fail"][0] == key
@@ -300,13 +553,42 @@ SPLIT18 = {
 
 
 # ------------------------------------------------------------------------------------- the check
+EXERCISED_SETTERS = ["with_arguments", "with_doc", "with_name", "with_opset"]  # = Props/C01.lean exercisedSetters
+
+
 def run(ck: core.Check):
+    entry = None
+    try:  # tie G: the inventory of build routes / options (an unreadable source degrades inside)
+        from translator import c01_entry
+
+        entry = c01_entry.generate()
+    except Exception as e:  # noqa: BLE001
+        ck.broken("generated", "C01 entry-option inventory (translator/c01_entry.py)", f"{type(e).__name__}: {e}")
     ck.lean(["SpoxModel.Props.C01"], audit="SpoxModel.Audit.C01")
+    if entry is not None:
+        # the Lean lists say what the harness varies: keep them honest against the harness's own tables
+        varied = sorted({k for kw in TO_MODEL_KW for k in kw})
+        try:
+            lean_src = (core.LEAN / "SpoxModel" / "Props" / "C01.lean").read_text()
+            import re as _re
+
+            def lean_list(name):
+                m = _re.search(r"def " + name + r" : List String :=\s*\[([^\]]*)\]", lean_src)
+                return sorted(_re.findall(r'"([^"]*)"', m.group(1))) if m else None
+
+            if lean_list("exercisedToModelOptions") != varied:
+                ck.broken("generated", "C01 exercisedToModelOptions differs from the harness's TO_MODEL_KW",
+                          f"{lean_list('exercisedToModelOptions')} vs {varied}")
+            if lean_list("exercisedSetters") != sorted(EXERCISED_SETTERS):
+                ck.broken("generated", "C01 exercisedSetters differs from the harness's graph route", str(lean_list("exercisedSetters")))
+        except Exception as e:  # noqa: BLE001
+            ck.broken("generated", "C01 could not compare the exercised-option lists", f"{type(e).__name__}: {e}")
+        ck.cov["entry_options_inventory"] = {k: [list(x) if isinstance(x, tuple) else x for x in v] for k, v in entry.items()}
     if ck.thorough:
         ck.leanchecker(["SpoxModel.Props.C01"])
 
     rng = ck.rng
-    n_random = ck.pick(650, 8000)
+    n_random = ck.pick(460, 6000)
     n_styles = ck.pick(3, 4)
     n_bind = 3
     skel_uses = ck.pick(3, 6)
@@ -319,8 +601,17 @@ def run(ck: core.Check):
         programs.append((prog, "skeleton2:" + tag))
     for prog, tag in L.skeleton3_programs(ck.pick(2, 3), ck.pick(1, 2)):
         programs.append((prog, "skeleton3:" + tag))
-    for prog, tag in L.skeleton4_programs(pairs=True):
+    sk4 = list(L.skeleton4_programs(pairs=True))
+    if not ck.thorough:  # every single placement, a seeded half of the two-placement programs
+        single = [pt for pt in sk4 if "+" not in pt[1]]
+        double = [pt for pt in sk4 if "+" in pt[1]]
+        sk4 = single + rng.sample(double, len(double) // 2)
+    for prog, tag in sk4:
         programs.append((prog, "skeleton4:" + tag))
+    for prog, tag in L.skeleton5_programs(random.Random(rng.getrandbits(48)), ck.thorough):
+        programs.append((prog, "skeleton5:" + tag))
+    for prog, tag in L.no_input_programs():  # outputs that read no input at all: the drop build has no inputs
+        programs.append((prog, "skeleton5:no-input:" + tag))
     n_skel = len(programs)
     for _ in range(ck.pick(60, 600)):  # scalar-attribute operators with unusual values, twins constructed first
         programs.append((L.gen_attr_program(random.Random(rng.getrandbits(48))), "attr"))
@@ -347,6 +638,36 @@ def run(ck: core.Check):
     notes = collections.Counter()
     shrink_budget = [ck.pick(3, 6)]  # number of failures that get shrunk
 
+    def queue_lean(prog, R, em, model, arg_ids, meta, also_abstract, caller_args=None):
+        """Queue the driver request for one model: the program numbered by the real creation order, the
+        emission read from `model`, whose inputs are the main arguments `arg_ids` (model order)."""
+        vals = [[rng.randrange(P) for _ in range(len(arg_ids))] for _ in range(2)]
+        sd = rng.randrange(1, 1000)
+        # the program as it was really created: nodes numbered by actual Python creation order
+        # (so wfCheck judges "creation order is a topological numbering" on the real run)
+        prog_c, idmap = L.renumber(prog, R.created)
+        em_c = L.rename_emission(em, idmap)
+        # requested outputs / inputs in the model's order, taken from the PROGRAM (validG compares
+        # them with what the emission returns / binds)
+        want_res = [prog["outputs"][int(o.name[3:])] for o in model.graph.output]
+        lean_reqs.append(L.lean_request(prog_c, em_c, vals, sd, [idmap[a] for a in arg_ids],
+                                        [[idmap[r[0]], r[1]] for r in want_res]))
+        lean_meta.append(meta + ("creation-order",))
+        # the model's `usedArgs` of the caller's full input list (Lean) vs the harness's own reachability
+        full = list(arg_ids) if caller_args is None else list(caller_args)
+        used = set(L.used_args(prog))
+        lean_reqs[-1]["allArgs"] = [idmap[a] for a in full]
+        lean_used.append(([idmap[a] for a in full if a in used], caller_args is not None))
+        if also_abstract:  # and in the abstract numbering: same values (renaming theorem)
+            lean_reqs.append(L.lean_request(prog, em, vals, sd, arg_ids, want_res))
+            lean_meta.append(meta + ("abstract-order",))
+            lean_reqs[-1]["allArgs"] = full
+            lean_used.append(([a for a in full if a in used], caller_args is not None))
+
+    lean_used: list[list[int]] = []
+    read_profile = collections.Counter()
+    hist_dims = collections.Counter()
+    variant_hist = collections.Counter()
     for pi, (prog, origin) in enumerate(programs):
         bad = L.check_wellformed(prog) + L.typecheck(prog)
         if bad:
@@ -367,6 +688,8 @@ def run(ck: core.Check):
             styles = ["eager"]  # (the harness itself must not recurse along the chain)
         elif origin == "attr":
             styles = ["lazy", "eager"]
+        elif origin.startswith("skeleton5"):
+            styles = [rng.choice(L.STYLES)] if not ck.thorough else rng.sample(L.STYLES, 2)
         elif origin.startswith("skeleton4"):
             styles = ["lazy", "eager"] if not ck.thorough else skel_styles
         else:
@@ -374,8 +697,15 @@ def run(ck: core.Check):
         skey = struct_key(prog)
         for style in styles:
             rseed = rng.getrandbits(32)
+            # how the model inputs are declared: the last of several styles (a third of the single-style
+            # skeleton5 programs) declares a seeded part of the dimensions by name / as unknown
+            dims = "concrete"
+            if not origin.startswith("deep") and not prog.get("special"):
+                if (len(styles) > 1 and style == styles[-1]) or (len(styles) == 1 and rng.random() < 0.34):
+                    dims = rng.choice(["symbolic", "unknown"])
+            hist_dims[dims] += 1
             try:
-                res = run_case(prog, style, rseed, bindings, specs, use_reference=(stats["builds"] % 12 == 0))
+                res = run_case(prog, style, rseed, bindings, specs, use_reference=(stats["builds"] % 12 == 0), dims=dims)
             except Exception as e:  # noqa: BLE001 - harness trouble on one case never ends the run
                 stats["harness_errors"] += 1
                 if stats["harness_errors"] <= 3:
@@ -390,7 +720,7 @@ def run(ck: core.Check):
                 notes[nt.split(":")[0]] += 1
             nontrivial = d >= 1 or any(len(n["ty"]) > 1 or None in n["ins"] for n in prog["nodes"])
             ck.count((skey, style) if nontrivial else None)
-            if not res["fail"] and style == styles[0] and (pi % 4 == 0 or origin == "attr") and not origin.startswith("deep"):
+            if not res["fail"] and style == styles[0] and (pi % ck.pick(6, 4) == 0 or origin == "attr") and not origin.startswith("deep"):
                 try:
                     hf = run_history(prog, style, rseed, bindings)
                 except Exception as e:  # noqa: BLE001
@@ -431,15 +761,76 @@ def run(ck: core.Check):
                 p2, b2 = prog, bindings
                 if shrink_budget[0] > 0 and not any(f["key"] == key for f in ck.failures):
                     shrink_budget[0] -= 1
-                    p2, b2 = shrink_failure(prog, style, rseed, bindings, key, ck.pick(60, 200))
-                    r2 = run_case(p2, style, rseed, b2)
+                    p2, b2 = shrink_failure(prog, style, rseed, bindings, key, ck.pick(60, 200), dims)
+                    r2 = run_case(p2, style, rseed, b2, dims=dims)
                     if r2["fail"] and r2["fail"][0] == key:
                         what = r2["fail"][1]
                     else:
                         p2, b2 = prog, bindings
-                ck.failure(key, f"{what} [{origin}, style {style}, {len(p2['nodes'])} nodes]", case_doc(p2, style, rseed, b2))
+                ck.failure(key, f"{what} [{origin}, style {style}, inputs declared {dims}, {len(p2['nodes'])} nodes]", case_doc(p2, style, rseed, b2, dims))
                 stats["oracle_failures"] += 1
             R = res["realised"]
+            drop_models: list = []
+            if (R is not None and res["model"] is not None and not res["fail"] and style == styles[0]
+                    and not origin.startswith("deep")):
+                # where this program's model inputs are read (from the ModelProto of the default build)
+                try:
+                    for nm_, ds_ in L.input_read_depths(res["model"]).items():
+                        read_profile["unused" if not ds_ else ("depth " + ",".join("3+" if d_ >= 3 else str(d_) for d_ in sorted({min(d_, 3) for d_ in ds_})))] += 1
+                except Exception:  # noqa: BLE001
+                    pass
+                is5 = origin.startswith("skeleton5")
+                variants = make_variants(prog, rng, full=is5)
+                if is5:
+                    variants = [variants[0]] + rng.sample(variants[1:], ck.pick(1, 2))
+                elif pi % 4:
+                    variants = variants[:1]
+                for variant in variants:
+                    try:
+                        vres = run_variant(prog, R, variant, bindings, specs)
+                    except Exception as e:  # noqa: BLE001
+                        stats["harness_errors"] += 1
+                        if stats["harness_errors"] <= 3:
+                            ck.broken("correspondence", "C01 harness could not process a build variant",
+                                      f"{origin} {variant}: {type(e).__name__}: {e}")
+                        continue
+                    if vres["skipped"]:
+                        notes["variant-route-unavailable"] += 1
+                        continue
+                    stats["variant_builds"] += 1
+                    variant_hist[variant["route"] + ("/drop" if variant["drop"] else "") + ("/extra-args" if variant["extra"] else "")
+                                 + ("/with_arguments" if variant.get("with_arguments") else "")] += 1
+                    if vres["fail"]:
+                        vkey, vwhat = vres["fail"]
+                        doc = case_doc(prog, style, rseed, bindings, dims)
+                        doc["variant"] = variant
+                        if shrink_budget[0] > 0 and not any(f["key"] == vkey for f in ck.failures):
+                            shrink_budget[0] -= 1
+
+                            def still_v(p_, bs_, variant=variant, vkey=vkey, dims=dims):
+                                try:
+                                    if L.check_wellformed(p_) or L.typecheck(p_):
+                                        return False
+                                    r_ = run_variant_case(p_, style, rseed, variant, bs_, dims)
+                                except Exception:  # noqa: BLE001
+                                    return False
+                                return r_ is not None and r_[0] == vkey
+
+                            try:
+                                p2, b2 = L.shrink(prog, bindings, still_v, ck.pick(40, 150))
+                                r2 = run_variant_case(p2, style, rseed, variant, b2, dims)
+                                if r2 and r2[0] == vkey:
+                                    doc = case_doc(p2, style, rseed, b2, dims)
+                                    doc["variant"] = variant
+                                    vwhat = r2[1]
+                            except Exception:  # noqa: BLE001
+                                pass
+                        ck.failure(vkey, f"{vwhat} [{origin}, style {style}, {len(doc['prog']['nodes'])} nodes]", doc)
+                        stats["oracle_failures"] += 1
+                    elif variant["route"] == "build" and variant["drop"] and vres["model"] is not None and None not in (vres["args"] or [None]):
+                        if len(vres["args"]) < len(L.main_args(prog)) or origin.startswith("skeleton5"):
+                            drop_models.append((vres["model"], vres["args"], vres["caller_args"]))  # (else: the default build's question again)
+                        stats["inputs_dropped"] += len(L.main_args(prog)) - len(vres["args"])
             if res["model"] is None:
                 if res["problems"] and not res["fail"]:
                     extraction_broken += 1
@@ -473,24 +864,22 @@ def run(ck: core.Check):
                 # driver; deep programs are judged by the oracle (quick) and the smaller ones by Lean (thorough)
                 stats["deep_programs_built_and_run"] += 1
                 continue
-            nm = len(L.main_args(prog))
-            vals = [[rng.randrange(P) for _ in range(nm)] for _ in range(2)]
-            sd = rng.randrange(1, 1000)
-            # the program as it was really created: nodes numbered by actual Python creation order
-            # (so wfCheck judges "creation order is a topological numbering" on the real run)
-            margs = L.main_args(prog)
-            prog_c, idmap = L.renumber(prog, R.created)
-            em_c = L.rename_emission(em, idmap)
-            # requested outputs / inputs in the model's order, taken from the PROGRAM (validG compares
-            # them with what the emission returns / binds)
-            want_res = [prog["outputs"][int(o.name[3:])] for o in res["model"].graph.output]
-            want_args = [int(i.name[2:]) for i in res["model"].graph.input]
-            lean_reqs.append(L.lean_request(prog_c, em_c, vals, sd, [idmap[a] for a in want_args],
-                                            [[idmap[r[0]], r[1]] for r in want_res]))
-            lean_meta.append((pi, style, rseed, origin, "creation-order"))
-            if stats["builds"] % 4 == 0:  # and in the abstract numbering: same values (renaming theorem)
-                lean_reqs.append(L.lean_request(prog, em, vals, sd, want_args, want_res))
-                lean_meta.append((pi, style, rseed, origin, "abstract-order"))
+            queue_lean(prog, R, em, res["model"], [int(i.name[2:]) for i in res["model"].graph.input],
+                       (pi, style, rseed, origin), stats["builds"] % 4 == 0)
+            # the same emission questions for the models of the drop_unused_inputs builds of this case
+            for vmodel, vargs, vcaller in drop_models:
+                try:
+                    em2, problems2 = L.extract_emission(prog, vmodel)
+                except Exception as e:  # noqa: BLE001
+                    em2, problems2 = None, [f"extraction crashed: {type(e).__name__}: {e}"]
+                if problems2 or em2 is None:
+                    extraction_broken += 1
+                    if extraction_broken <= 3:
+                        ck.broken("correspondence", "C01 emission extraction (drop_unused_inputs build)",
+                                  f"{origin} style={style} rseed={rseed}: {problems2[:3]}")
+                    continue
+                queue_lean(prog, R, em2, vmodel, vargs, (pi, style, rseed, origin + " [drop_unused_inputs]"), False, vcaller)
+                stats["drop_builds_sent_to_lean"] += 1
             if pi % 97 == 0 and style == styles[0]:
                 ck.sample({"origin": origin, "style": style, "nodes": len(prog["nodes"]), "depth": d,
                            "ops": sorted(set(n["op"] for n in prog["nodes"])),
@@ -506,10 +895,16 @@ def run(ck: core.Check):
     if outs and len(outs) != len(lean_reqs):
         ck.broken("correspondence", "C01 driver", f"{len(outs)} answers for {len(lean_reqs)} requests")
     prev = None
-    for o, meta, req in zip(outs, lean_meta, lean_reqs):
+    for o, meta, req, (want_used, is_drop) in zip(outs, lean_meta, lean_reqs, lean_used):
         tag = None
         if "error" in o:
             tag = "driver-error"
+        elif o.get("used") != want_used:
+            tag = "usedArgs-differs-from-reachability"
+        elif is_drop and not o.get("dropValid"):
+            tag = "real-drop_unused_inputs-emission-is-not-valid-for-dropUnused"
+        elif not (o.get("leaf") and o.get("argsOk")):
+            tag = "side-conditions-of-usedArgs_least-do-not-hold (argsLeaf / isArg / notFormal)"
         elif not o["wf"]:
             tag = "wfCheck-false"
         elif not o["valid"]:
@@ -523,6 +918,8 @@ def run(ck: core.Check):
                           f"program #{meta[0]} ({meta[3]}) style={meta[1]} rseed={meta[2]} answer={json.dumps(o)[:300]} emission={json.dumps(req['emit'])[:400]}")
         else:
             stats["emissions_validated"] += int(meta[4] == "creation-order")
+            stats["drop_builds_validated"] += int(is_drop)
+            stats["usedArgs_compared"] += 1
             stats["eval_vs_denote_compared"] += int(req["denote"])
             if meta[4] == "abstract-order" and prev is not None and prev[1][:4] == meta[:4]:
                 stats["numberings_compared"] += 1
@@ -568,12 +965,19 @@ def run(ck: core.Check):
             "bindings_compared_with_numpy": stats["bindings_compared"],
             "bindings_skipped_overflow": stats["bindings_skipped_overflow"],
             "oracle_failures": stats["oracle_failures"],
+            "variant_builds": stats["variant_builds"],
+            "variant_builds_by_kind": dict(variant_hist),
+            "drop_unused_inputs_models_validated_by_lean": stats["drop_builds_validated"],
+            "model_inputs_dropped_by_drop_builds": stats["inputs_dropped"],
+            "usedArgs_lean_vs_reachability_compared": stats["usedArgs_compared"],
+            "model_inputs_by_depths_read": dict(read_profile),
             "distribution": {
                 "ops": dict(hist_ops),
                 "nesting_depth_of_outputs": dict(hist_depth),
                 "emission_depth": dict(em_depth),
                 "styles": dict(hist_style),
                 "opset_versions": dict(hist_opset),
+                "model_inputs_declared": dict(hist_dims),
                 "emitted_nodes": stats["emitted_nodes"],
                 "emitted_graphs": stats["emitted_graphs"],
                 "unrequested_constructions": stats["unrequested_constructions"],
@@ -609,6 +1013,13 @@ def replay(ck: core.Check, doc) -> bool:
     case = doc["case"]
     prog = case["prog"]
     bindings = [L.binding_from_json(prog, b) for b in case["bindings"]]
+    if case.get("variant"):
+        vf = run_variant_case(prog, case["style"], case["rseed"], case["variant"], bindings, case.get("dims", "concrete"))
+        if vf:
+            print(f"{vf[0]}: {vf[1]}")
+            return True
+        print(f"variant build {case['variant']} built, has the expected inputs, and agrees with the dataflow evaluation")
+        return False
     if case.get("history") or doc.get("history"):
         hf = run_history(prog, case["style"], case["rseed"], bindings)
         if hf:
@@ -616,7 +1027,7 @@ def replay(ck: core.Check, doc) -> bool:
             return True
         print("every build of the history agrees with the dataflow evaluation")
         return False
-    res = run_case(prog, case["style"], case["rseed"], bindings, use_reference=True)
+    res = run_case(prog, case["style"], case["rseed"], bindings, use_reference=True, dims=case.get("dims", "concrete"))
     if res["fail"]:
         print(f"{res['fail'][0]}: {res['fail'][1]}")
         return True
